@@ -84,27 +84,31 @@ class Sym:
         return val
 
     # -- public --------------------------------------------------------
-    def int(self, name: str, lo: int, hi: int):
-        """An arbitrary integer in [lo, hi] (symbolic under the engine)."""
+    def _int(self, name: str, lo: int, hi: int):
+        """Returns (value, is_symbolic)."""
         name = self._uniq(name)
         if self.mode == Sym.REPLAY:
             v = int(self._replay_next(name, lo, hi))
             self.draws.append((name, v))
-            return v
+            return v, False
         if name in self.forced:
             v = int(self.forced[name])
             if not (lo <= v <= hi):
                 raise AssertionError(f"forced {name}={v} outside [{lo},{hi}]")
             self.draws.append((name, v))
-            return v
+            return v, False
         if lo == hi:
             self.draws.append((name, lo))
-            return lo
+            return lo, False
         from vf.engine import fresh_int
 
         v = fresh_int(name, lo, hi)
         self.draws.append((name, v))
-        return v
+        return v, True
+
+    def int(self, name: str, lo: int, hi: int):
+        """An arbitrary integer in [lo, hi] (symbolic under the engine)."""
+        return self._int(name, lo, hi)[0]
 
     def bool(self, name: str) -> bool:
         """An arbitrary boolean; forks into the two concrete values."""
@@ -112,8 +116,8 @@ class Sym:
 
     def choice(self, name: str, n: int) -> int:
         """A selector in range(n); the engine forks so the result is concrete."""
-        v = self.int(name, 0, n - 1)
-        if isinstance(v, int) and type(v) is int:
+        v, symbolic = self._int(name, 0, n - 1)
+        if not symbolic:
             return v
         for k in range(n - 1):
             if v == k:
